@@ -101,13 +101,15 @@ var stmtForms = []struct{ name, body string }{
 	{"make-forms", "\tm := make(map[string]int, 4)\n\tn := make(map[int]string)\n\ts := make([]int, 2)\n\tm[\"k\"] = a\n\tn[b] = \"v\"\n\ts[1] = b\n\tif a > 0 {\n\t\tq := make(map[int]int, a)\n\t\tq[1] = 2\n\t\treturn len(q) + len(m)\n\t}\n\treturn len(m) + len(n) + len(s) + s[1]\n"},
 	{"fresh-locals", "\ts := scale(1.5, 2.5)\n\tu := narrow(200)\n\tr := fresh()\n\tw := narrow(byte(a)) + fresh2(b)\n\tfmt.Println(s, u, r, w)\n\tq := scale(float64(a), 0.5)\n\tr2 := fresh() + fresh2(a)\n\tfmt.Println(q, r2)\n\treturn r + r2\n"},
 	{"tuple-assign-phases", "\ts := []int{10, 20, 30}\n\ti := 0\n\ts[i], i = a, 1\n\tfmt.Println(s, i)\n\tj := 2\n\tj, s[j] = 0, b\n\tfmt.Println(s, j)\n\tm := map[int]int{}\n\tm[1], m[1] = a, b\n\tfmt.Println(m[1])\n\tt := &T{v: 1}\n\tu := t\n\tt.v, t = 7, &T{v: 2}\n\tfmt.Println(t.v, u.v)\n\tk := 0\n\ts[k], s[k+1], k = s[k+1], s[k], 2\n\tfmt.Println(s, k)\n\tx, y := a, b\n\tx, y = y, x+y\n\tp, q := two(a)\n\ts[0], _ = two(b)\n\treturn x + y + p + q + s[0] + i + j + k\n"},
+	{"literal-result-counts", "\tx, y := lit2(a)\n\tz := lit1(b)\n\tlit0(a)\n\treturn x + y + z\n"},
 	{"blank-params", "\tx := bp(a, b, 5)\n\tbp(1, 2, 3)\n\ty := bq(a, b)\n\treturn x + y + bp(b, a, a)\n"},
 }
 
 var stmtExtras = map[string]string{
-	"fresh-locals":   "func scale(x, y float64) float64 {\n\tt := x * y\n\tu := t + 0.25\n\treturn u\n}\n\nfunc narrow(x byte) int {\n\tt := x + x\n\tv := int8(x)\n\tv += 100\n\treturn int(t) + int(v)\n}\n\nfunc fresh() int {\n\tn := 7\n\tm := 3\n\tk := 250\n\tk += 10\n\treturn n/2 + m/2 + k\n}\n\nfunc fresh2(p int) int {\n\tn := 9\n\tfor i := 0; i < 2; i++ {\n\t\th := 5\n\t\tn += h / 2\n\t}\n\treturn n/2 + p\n}\n\n",
-	"variadic-calls": "func sum(base int, rest ...int) int {\n\tfor _, r := range rest {\n\t\tbase += r\n\t}\n\treturn base\n}\n\nfunc (t *T) vs(rest ...byte) int {\n\tn := t.v\n\tfor _, r := range rest {\n\t\tn += int(r * r)\n\t}\n\treturn n\n}\n\nfunc spread(x int, y int) int {\n\treturn sum(x, mk(y)...)\n}\n\n",
-	"blank-params":   "func bp(_ int, _ int, c int) int {\n\td := c + 1\n\treturn d\n}\n\nfunc bq(_ int, _ int) int {\n\treturn 4\n}\n\n",
+	"literal-result-counts": "func lit2(v int) (int, int) {\n\th := func(x int) int {\n\t\treturn x + 1\n\t}\n\tv = h(v)\n\treturn two(v)\n}\n\nfunc lit1(v int) int {\n\th := func(x int) (int, int) {\n\t\treturn x, x + 1\n\t}\n\tp, q := h(v)\n\tk := func() {\n\t\tcnt++\n\t}\n\tk()\n\treturn g(p + q)\n}\n\nfunc lit0(v int) {\n\th := func(x int) (int, int, int) {\n\t\treturn three(x)\n\t}\n\th(v)\n\tvoid(v)\n}\n\n",
+	"fresh-locals":          "func scale(x, y float64) float64 {\n\tt := x * y\n\tu := t + 0.25\n\treturn u\n}\n\nfunc narrow(x byte) int {\n\tt := x + x\n\tv := int8(x)\n\tv += 100\n\treturn int(t) + int(v)\n}\n\nfunc fresh() int {\n\tn := 7\n\tm := 3\n\tk := 250\n\tk += 10\n\treturn n/2 + m/2 + k\n}\n\nfunc fresh2(p int) int {\n\tn := 9\n\tfor i := 0; i < 2; i++ {\n\t\th := 5\n\t\tn += h / 2\n\t}\n\treturn n/2 + p\n}\n\n",
+	"variadic-calls":        "func sum(base int, rest ...int) int {\n\tfor _, r := range rest {\n\t\tbase += r\n\t}\n\treturn base\n}\n\nfunc (t *T) vs(rest ...byte) int {\n\tn := t.v\n\tfor _, r := range rest {\n\t\tn += int(r * r)\n\t}\n\treturn n\n}\n\nfunc spread(x int, y int) int {\n\treturn sum(x, mk(y)...)\n}\n\n",
+	"blank-params":          "func bp(_ int, _ int, c int) int {\n\td := c + 1\n\treturn d\n}\n\nfunc bq(_ int, _ int) int {\n\treturn 4\n}\n\n",
 }
 
 func genStmtProgs() []*Prog {
